@@ -42,6 +42,7 @@ type probe struct {
 }
 
 type tracker struct {
+	probed map[ast.Expr]bool
 	r      *rw
 	fields map[*types.Var]string // origin field var -> "Type.field"
 	maps   map[*types.Var]bool
@@ -51,7 +52,7 @@ func (r *rw) trackFile(f *ast.File) {
 	if r.info == nil || r.track == nil {
 		return
 	}
-	tk := &tracker{r: r, fields: map[*types.Var]string{}, maps: map[*types.Var]bool{}}
+	tk := &tracker{probed: map[ast.Expr]bool{}, r: r, fields: map[*types.Var]string{}, maps: map[*types.Var]bool{}}
 	// collect the field objects of the tracked named struct types declared in this package
 	seen := map[*types.Package]bool{}
 	for _, obj := range r.info.Defs {
@@ -84,11 +85,31 @@ func (r *rw) trackFile(f *ast.File) {
 	if len(tk.fields) == 0 {
 		return
 	}
+	// coverage statistics: how many selector expressions denote a tracked field at all
+	ast.Inspect(f, func(n ast.Node) bool {
+		if se, ok := n.(*ast.SelectorExpr); ok {
+			if fv, _ := tk.fieldOf(se); fv != nil {
+				r.stats["track:field-selectors"]++
+			}
+		}
+		return true
+	})
 	for _, d := range f.Decls {
 		if fd, ok := d.(*ast.FuncDecl); ok && fd.Body != nil {
 			tk.block(fd.Body)
 		}
 	}
+	// which tracked-field selectors got no probe (diagnostics; many are legitimately not accesses:
+	// address-of operands, receivers of pointer methods on embedded struct values)
+	ast.Inspect(f, func(n ast.Node) bool {
+		if se, ok := n.(*ast.SelectorExpr); ok {
+			if fv, name := tk.fieldOf(se); fv != nil && !tk.probed[se] {
+				pos := r.fset.Position(se.Pos())
+				r.unprobed = append(r.unprobed, fmt.Sprintf("%s:%d %s", r.file, pos.Line, name))
+			}
+		}
+		return true
+	})
 }
 
 func syncType(t types.Type) bool {
@@ -132,6 +153,7 @@ func (tk *tracker) list(in []ast.Stmt) []ast.Stmt {
 }
 
 func (tk *tracker) emit(p probe) ast.Stmt {
+	tk.probed[p.expr] = true
 	tk.r.usedVrt, tk.r.usedUns = true, true
 	tk.r.stats["probe:"+p.fn]++
 	addr := &ast.UnaryExpr{Op: token.AND, X: p.expr}
